@@ -279,7 +279,7 @@ def _len_test(term):
     return None
 
 
-NOT_NONE_KINDS = {'new', 'coro', 'closure', 'func', 'class', 'mod', 'pos', 'tuple',
+NOT_NONE_KINDS = {'exc', 'new', 'coro', 'closure', 'func', 'class', 'mod', 'pos', 'tuple',
                   'list', 'set', 'comp', 'union', 'fmt', 'task', 'builtin'}
 
 
@@ -1024,28 +1024,50 @@ class Interp:
     def x_For(self, s, st, fr):
         o = Out()
         for x, it in self.eval(s.iter, st, fr, o):
+            if _one_shot(it):
+                if it in (x.a('spent') or ()):
+                    # a generator that has been run to its end yields nothing more
+                    it = EMPTY
+                else:
+                    inner = self._for_over(s, it, x, fr, o)
+                    for y in inner:
+                        o.nxt.append(y.set(spent=(y.a('spent') or frozenset()) | frozenset([it])))
+                    continue
+            o.nxt += self._for_over(s, it, x, fr, o)
+        o.nxt = dedup(o.nxt)
+        return o
+
+    def _for_over(self, s, it, x, fr, outer):
+        """the states that leave `for ... in it` normally (its other outcomes go to `outer`)"""
+        o = Out()
+
+        def run():
             r = self.an.on_loop(self, s, it, x, fr)
             if r is not None:
                 o.absorb(r, nxt=True)
-                continue
+                return
             if it[0] in ('gen', 'call') and self.an.iter_may_raise(self, it):
                 o.exc.append((x.note(self.where(s, fr), "iterating %s raises" % T.show(it, 2)),
                               ('Raise', None, T.mk(('unk', 'iteration'))), s))
             folded = self.try_fold(s, it, x, fr)
             if folded is not None:
-                o.nxt += folded
-                continue
+                o.nxt.extend(folded)
+                return
             fr_out = self.try_fold_return(s, it, x, fr)
             if fr_out is not None:
                 o.absorb(fr_out, nxt=True)
-                continue
+                return
             acc = self.try_fold_accumulate(s, it, x, fr)
             if acc is not None:
                 o.nxt.append(acc)
-                continue
+                return
             self.iterate(s, it, x, fr, o)
-        o.nxt = dedup(o.nxt)
-        return o
+        run()
+        outer.ret += o.ret
+        outer.exc += o.exc
+        outer.brk += o.brk
+        outer.cont += o.cont
+        return dedup(o.nxt)
 
     x_AsyncFor = x_For
 
@@ -1627,7 +1649,12 @@ class Interp:
         return None
 
     def e_Name(self, e, st, fr, o):
-        return [(st, self.lookup(e.id, st, fr, e))]
+        t = self.lookup(e.id, st, fr, e)
+        sp = st.a('spent')
+        if sp and t in sp and _one_shot(t):
+            # reading a generator that has already been run to its end: whoever iterates it gets nothing
+            t = EMPTY
+        return [(st, t)]
 
     def e_Attribute(self, e, st, fr, o):
         res = []
@@ -1857,7 +1884,13 @@ class Interp:
         return self.comp(e, st, fr, o, 'set', [e.elt])
 
     def e_GeneratorExp(self, e, st, fr, o):
-        return self.comp(e, st, fr, o, 'gen', [e.elt])
+        res = []
+        for x, t in self.comp(e, st, fr, o, 'gen', [e.elt]):
+            sp = x.a('spent')
+            if sp and t in sp:
+                x = x.set(spent=sp - frozenset([t]))       # a new generator object
+            res.append((x, t))
+        return res
 
     def e_DictComp(self, e, st, fr, o):
         return self.comp(e, st, fr, o, 'dict', [e.key, e.value])
@@ -2355,6 +2388,16 @@ def _may_stop_early(loop):
         if isinstance(n, (ast.FunctionDef, ast.AsyncFunctionDef, ast.ClassDef, ast.Lambda)):
             continue
         stack.extend(ast.iter_child_nodes(n))
+    return False
+
+
+def _one_shot(t):
+    """an iterator that can be run through only once: a generator expression, a generator object, the lazy
+    builtins"""
+    if t[0] == 'comp' and t[1] == 'gen':
+        return True
+    if t[0] == 'call' and t[1] in ('filter', 'map', 'zip', 'iter', 'reversed', 'enumerate'):
+        return True
     return False
 
 
